@@ -75,6 +75,11 @@ def SDt.inEffect (now : Int) (d : SDt) : Bool :=
 
 def SDt.inWindow (now : Int) (d : SDt) : Bool := decide (d.start ≤ now) && decide (now ≤ d.fin)
 
+/-- The instants at which a downtime may take effect: a fixed one during `[start, end)`, a flexible one
+    during `[start, end]`. -/
+def SDt.trigWindow (now : Int) (d : SDt) : Bool :=
+  decide (d.start ≤ now) && (if d.fixed then decide (now < d.fin) else decide (now ≤ d.fin))
+
 /-- Over: a fixed or never-triggered downtime after its end, a triggered flexible one after
     `duration` seconds. -/
 def SDt.over (now : Int) (d : SDt) : Bool :=
@@ -175,7 +180,7 @@ def specStep (sp : SpecSt) (op : Op) (o : Obs) : Option Clause :=
          | none => b.trig == 0)), .flexibleTrigger),
     -- triggering a downtime triggers the downtimes chained to it
     (post.all (fun c =>
-        !(c.alive && c.trigBy != 0 && evCount o 3 c.trigBy > 0 && !isAddOf c.id && c.inWindow now && !c.over now) ||
+        !(c.alive && c.trigBy != 0 && evCount o 3 c.trigBy > 0 && !isAddOf c.id && c.trigWindow now && !c.over now) ||
         c.trig != 0), .triggerCascade),
     -- one DowntimeStart per downtime, present once it has taken effect
     (post.all (fun d => d.starts ≤ 1), .startOnce),
